@@ -539,6 +539,10 @@ class Evaluator:
             return v.symiter(self)
         if isinstance(v, GenResult):
             return list(v.items)
+        if isinstance(v, Obj) and v.tag == "iterator":
+            return list(v.attrs["items"])
+        if isinstance(v, Obj) and "__iter__" in v.attrs.get("__methods__", {}):
+            return self.iterate(self.run_function(v.attrs["__methods__"]["__iter__"], [v], {}, {}), node)
         if isinstance(v, SymRange):
             # one abstract iteration with a fresh variable lo <= r < hi (the body must not carry state between
             # iterations; the callers of this feature check what they need from the recorded fact)
